@@ -564,6 +564,24 @@ func (r *Run) goEvent(fr *Frame, st *State, x *ssa.Go) {
 		vars[fmt.Sprintf("$%d", i)] = r.val(fr, st, a)
 	}
 	r.siteChecks(fr, st, x, r.contractFor(fr.fn), name, site, vars, false)
+	// a goroutine is started on a function under contract: its preconditions are obligations of the spawner
+	if ct := r.eng.C.ByName[name]; ct != nil && ct.Kind == "func" && len(ct.Requires) > 0 {
+		if fn := r.eng.fns[name]; fn != nil && len(fn.Params) == len(x.Call.Args) {
+			cv := map[string]*Val{}
+			for i, p := range fn.Params {
+				cv[p.Name()] = r.val(fr, st, x.Call.Args[i])
+				cv[fmt.Sprintf("$%d", i)] = cv[p.Name()]
+			}
+			env := &Env{r: r, st: st, fr: nil, vars: cv, ctx: site}
+			for _, u := range ct.Uses {
+				st.uses[u] = true
+			}
+			for _, cl := range ct.Requires {
+				g := r.evalBool(env, cl.Expr)
+				r.emit(st, "go:"+site+"/requires:"+cl.Label, "callreq", propsOr(cl.Props, ctProps(r.ct)), g)
+			}
+		}
+	}
 	if _, ok := r.eng.C.DeclBy["ghost:spawned"]; ok {
 		cur, _ := r.ghostVar(st, "spawned")
 		r.havocGhost(st, "spawned")
